@@ -596,7 +596,8 @@ def main():
             k = len(raw)
             crashed = {"rc": rc, "stderr": err, "line": lines[k] if k < len(lines) else None, "index": k}
             # context needed to reproduce: creation line of the object + the failing line
-            ctx = [l for l in lines[:k] if l.split()[0] in ("hmac", "aes", "aes2", "pool", "seed")] + ([lines[k]] if k < len(lines) else [])
+            oidk = lines[k].split()[1] if k < len(lines) and len(lines[k].split()) > 1 else None
+            ctx = [l for l in lines[:k] if l.split()[0] in ("hmac", "aes", "aes2", "pool") and l.split()[1] == oidk][-1:] + ([lines[k]] if k < len(lines) else [])
             c.violation(f"sanitizer abort / crash / uncaught exception of the real code in stage {name}",
                         {"lines": ctx[-40:], "stderr": err[-3000:], "replay_cmd": "bin/check C05 --replay <this file>"})
         impl = [canon_impl(o) for o in raw] + ["<no output: harness died>"] * (len(lines) - len(raw))
